@@ -171,10 +171,14 @@ void rsValuesFacet::ResetFor(const EntityUID target) {
 void rsValuesFacet::PruneStructure(const EntityUID target) {
   const auto oldData = SDataFor(target);
   if (!oldData.has_value()) {
+    ResetFor(target); // a structure that has just become correct starts with the empty set, like a newly created one
     return;
-  } 
+  }
   const auto& typeValue = core.GetParse(target).exprType;
-  assert(typeValue.has_value());
+  if (core.GetParse(target).status != ParsingStatus::VERIFIED || !typeValue.has_value()) {
+    storage->Erase(target); // data of a structure that is no longer correct cannot be checked or saved
+    return;
+  }
   // NOLINTNEXTLINE(bugprone-exception-escape, bugprone-unchecked-optional-access)
   const auto& type = std::get<rslang::Typification>(typeValue.value());
   if (!oldData->IsCollection()) {
